@@ -866,7 +866,14 @@ Proof.
 Qed.
 
 Lemma ends_ok b c c' : ends b c = Ok c' -> c' = c.
-Proof. unfold ends. destruct (parse_endline b); try discriminate. congruence. Qed.
+Proof.
+  unfold ends, bind. destruct (parse_endline b); try discriminate. intro H. injection H as <-.
+  reflexivity.
+Qed.
+
+Lemma bind_ok {A B} (r : result A) (f : A -> result B) y :
+  bind r f = Ok y -> exists x, r = Ok x /\ f x = Ok y.
+Proof. destruct r; cbn; try discriminate. intro H. eexists. split; [reflexivity|exact H]. Qed.
 
 Theorem parse_command_wf b c : parse_command b = Ok c -> cmd_wf c = true.
 Proof.
@@ -881,34 +888,32 @@ Proof.
     end; try discriminate; apply ends_ok in H; subst; reflexivity.
   - intro H. apply ends_ok in H. subst. reflexivity.
   - intro H. apply ends_ok in H. subst. reflexivity.
-  - unfold parse_authenticate. intro H.
-    repeat match type of H with
-    | context [match ?x with _ => _ end] => destruct x
-    end; try discriminate; injection H as <-; reflexivity.
+  - unfold parse_authenticate. intro H. apply bind_ok in H. destruct H as ([m r1] & _ & H).
+    destruct (parse_string r1) as [[d r2]| | |]; try discriminate; injection H as <-; reflexivity.
   - intro H. apply ends_ok in H. subst. reflexivity.
   - intro H. apply ends_ok in H. subst. reflexivity.
-  - unfold parse_havespace. destruct (parse_script_name false r) as [[n r1]| | |] eqn:E;
-      try discriminate. destruct (parse_number_tok r1) as [[sz r2]| | |]; try discriminate.
-    intro H. apply ends_ok in H. subst. cbn. eapply parse_script_name_nonempty. exact E.
-  - unfold parse_putscript. destruct (parse_script_name false r) as [[n r1]| | |] eqn:E;
-      try discriminate. destruct (parse_string r1) as [[d r2]| | |]; try discriminate.
-    intro H. apply ends_ok in H. subst. cbn. eapply parse_script_name_nonempty. exact E.
+  - unfold parse_havespace. intro H.
+    apply bind_ok in H. destruct H as ([n r1] & E & H).
+    apply bind_ok in H. destruct H as ([sz r2] & _ & H).
+    apply ends_ok in H. subst. cbn. eapply parse_script_name_nonempty. exact E.
+  - unfold parse_putscript. intro H.
+    apply bind_ok in H. destruct H as ([n r1] & E & H).
+    apply bind_ok in H. destruct H as ([d r2] & _ & H).
+    apply ends_ok in H. subst. cbn. eapply parse_script_name_nonempty. exact E.
   - intro H. apply ends_ok in H. subst. reflexivity.
-  - unfold parse_name_cmd. destruct (parse_script_name true r) as [[n r1]| | |]; try discriminate.
-    intro H. apply ends_ok in H. subst. destruct n; reflexivity.
-  - unfold parse_name_cmd. destruct (parse_script_name false r) as [[n r1]| | |] eqn:E;
-      try discriminate.
-    intro H. apply ends_ok in H. subst. cbn. eapply parse_script_name_nonempty. exact E.
-  - unfold parse_name_cmd. destruct (parse_script_name false r) as [[n r1]| | |] eqn:E;
-      try discriminate.
-    intro H. apply ends_ok in H. subst. cbn. eapply parse_script_name_nonempty. exact E.
-  - unfold parse_rename. destruct (parse_script_name false r) as [[o r1]| | |] eqn:E;
-      try discriminate. destruct (parse_script_name false r1) as [[n r2]| | |] eqn:E2;
-      try discriminate.
-    intro H. apply ends_ok in H. subst. cbn. apply andb_true_iff.
+  - unfold parse_name_cmd. intro H. apply bind_ok in H. destruct H as ([n r1] & _ & H).
+    apply ends_ok in H. subst. destruct n; reflexivity.
+  - unfold parse_name_cmd. intro H. apply bind_ok in H. destruct H as ([n r1] & E & H).
+    apply ends_ok in H. subst. cbn. eapply parse_script_name_nonempty. exact E.
+  - unfold parse_name_cmd. intro H. apply bind_ok in H. destruct H as ([n r1] & E & H).
+    apply ends_ok in H. subst. cbn. eapply parse_script_name_nonempty. exact E.
+  - unfold parse_rename. intro H.
+    apply bind_ok in H. destruct H as ([o r1] & E & H).
+    apply bind_ok in H. destruct H as ([n r2] & E2 & H).
+    apply ends_ok in H. subst. cbn. apply andb_true_iff.
     split; eapply parse_script_name_nonempty; eassumption.
-  - unfold parse_checkscript. destruct (parse_string r) as [[d r1]| | |]; try discriminate.
-    intro H. apply ends_ok in H. subst. reflexivity.
+  - unfold parse_checkscript. intro H. apply bind_ok in H. destruct H as ([d r1] & _ & H).
+    apply ends_ok in H. subst. reflexivity.
 Qed.
 
 Corollary input_of_bytes_wf b conts : input_wf (input_of_bytes b conts) = true.
